@@ -48,11 +48,25 @@ HalfTrunc(a) == IF a >= 0 THEN a \div 2 ELSE -((-a) \div 2)
 
 \* common.Median: 0 for the empty list, the middle element for odd length,
 \* the truncated average of the two middle elements for even length.
+\* (Median is that function on arbitrary integers.)  Event timestamps are unix
+\* seconds: the sum is positive and Go's truncation is the floor.  Trace timestamps are offsets from a base near the wall clock (the
+\* offset of a sum is the sum of the offsets minus an even number), so the
+\* floor of the offsets' sum is the image of that truncation - HalfTrunc on
+\* offsets would round -63/2 to -31 where the code, on absolute values,
+\* yields base - 32.
 Median(s) ==
     LET t == SortInts(s)
         l == Len(t)
     IN  IF l = 0 THEN 0
         ELSE IF l % 2 = 0 THEN HalfTrunc(t[l \div 2] + t[l \div 2 + 1])
+             ELSE t[l \div 2 + 1]
+
+\* Median over event timestamps (see the note above): floor of the average
+MedianTS(s) ==
+    LET t == SortInts(s)
+        l == Len(t)
+    IN  IF l = 0 THEN 0
+        ELSE IF l % 2 = 0 THEN (t[l \div 2] + t[l \div 2 + 1]) \div 2
              ELSE t[l \div 2 + 1]
 
 \* the two middle elements of the sorted list (equal for odd length)
